@@ -9,6 +9,7 @@ import FFS.Driver.Eip712
 import FFS.Driver.Ffi
 import FFS.Driver.Keystore
 import FFS.Driver.FsWallet
+import FFS.Driver.Proxy
 open Lean FFS FFS.Driver
 
 def dispatch (op : String) (j : Json) : Json :=
@@ -47,6 +48,7 @@ def dispatch (op : String) (j : Json) : Json :=
   | "ks.create" => opKsCreate j
   | "prim" => opPrim j
   | "fsw.run" => opFswRun j
+  | "proxy.handle" => opProxyHandle j
   | _ => Json.mkObj [("bad", "op")]
 
 partial def loop (hin : IO.FS.Stream) (hout : IO.FS.Stream) : IO Unit := do
